@@ -1045,3 +1045,37 @@ func slotOf(fa *ssa.FieldAddr) string {
 	key, _, _, _ := ir.FullField(inner)
 	return key
 }
+
+// streamTableAndGuard discovers the listening-stream table (map member whose values point to a record holding a
+// context.CancelFunc) and the mutex guarding it.
+func streamTableAndGuard(c *Ctx) (table, guard string) {
+	accs := CollectAccesses(c)
+	for _, a := range accs {
+		m, ok := a.Type.Underlying().(*types.Map)
+		if !ok {
+			continue
+		}
+		pt, ok := m.Elem().(*types.Pointer)
+		if !ok {
+			continue
+		}
+		st, ok := pt.Elem().Underlying().(*types.Struct)
+		if !ok {
+			continue
+		}
+		for i := 0; i < st.NumFields(); i++ {
+			if isCancelFunc(st.Field(i).Type()) {
+				table = a.Field
+			}
+		}
+	}
+	if table == "" {
+		return "", ""
+	}
+	for _, g := range GuardTable(c, accs) {
+		if g.Field == table {
+			guard = g.Guard
+		}
+	}
+	return table, guard
+}
